@@ -431,9 +431,9 @@ TRUSTED_BASE = [
 # the pinned source text (Proofs/SrcPin*.v) behind the hand-written models each property's theorems speak about
 _RT, _EL, _EX, _GL = "Proofs/SrcPinCheckers.v", "Proofs/SrcPinElab.v", "Proofs/SrcPinExpr.v", "Proofs/SrcPinGlobals.v"
 SRC_PINS = {"C01": [_RT, _EL], "C02": [_RT, _EL], "C03": [_RT, _EL], "C04": [_RT, _EL], "C05": [_RT, _EL],
-            "C06": [_EX], "C07": [_EX, _RT], "C08": [_RT, _EL], "C09": [_RT, _EL], "C10": [_RT], "C11": [_RT],
+            "C06": [_EX, _RT, _EL], "C07": [_EX, _RT, _EL], "C08": [_RT, _EL], "C09": [_RT, _EL], "C10": [_RT], "C11": [_RT],
             "C12": [_RT], "C13": [_RT, _EL], "C14": [_RT, _EL], "C15": [_RT, _EL, _GL], "C16": [_RT, _EL],
-            "C17": [_RT, _EL], "C18": [_RT, _EL], "C19": [_RT, _EL], "C20": [_EX, _GL]}
+            "C17": [_RT, _EL], "C18": [_RT, _EL], "C19": [_RT, _EL], "C20": [_EX, _GL, _RT, _EL]}
 
 
 def proof_section(out, build, cone_files, props_file):
